@@ -966,6 +966,9 @@ func runC17(e *env) {
 	if only == "" || only == "fw" {
 		runC17FW(e)
 	}
+	if only == "" || only == "snap" {
+		runC17Snap(e)
+	}
 }
 
 func c17Tables(e *env) {
